@@ -522,6 +522,52 @@ func checkMemReader(c *Ctx, rule string, ri *readerInfo) map[token.Pos]bool {
 						}
 					}
 				}
+				// forward-- under `forward > begin`, repeated until utf8.RuneStart(text[forward]): the retraction walks back over the
+				// continuation bytes of the last rune of the pending text (which holds whole runes only: Next refuses anything else)
+				if k, isConst := bo.Y.(*ssa.Const); isConst && bo.Op == token.SUB && isConstInt(k, 1) {
+					above := false
+					for _, cd := range controlConds(w.st.Block()) {
+						cmp, isB := cd.v.(*ssa.BinOp)
+						if !isB {
+							continue
+						}
+						fx, by := loadOfField(cmp.X, recv, roles.forward), loadOfField(cmp.Y, recv, roles.begin)
+						bx, fy := loadOfField(cmp.X, recv, roles.begin), loadOfField(cmp.Y, recv, roles.forward)
+						switch {
+						case fx && by && ((cmp.Op == token.GTR && cd.pol) || (cmp.Op == token.LEQ && !cd.pol)):
+							above = true
+						case bx && fy && ((cmp.Op == token.LSS && cd.pol) || (cmp.Op == token.GEQ && !cd.pol)):
+							above = true
+						}
+					}
+					runeStart := false
+					for _, b := range f.Blocks {
+						for _, in := range b.Instrs {
+							call, isCall := in.(*ssa.Call)
+							if !isCall || staticCalleeName(call) != "unicode/utf8.RuneStart" || len(call.Call.Args) != 1 {
+								continue
+							}
+							if un, isUn := call.Call.Args[0].(*ssa.UnOp); isUn && un.Op == token.MUL {
+								if ia, isIA := un.X.(*ssa.IndexAddr); isIA && loadOfField(ia.X, recv, roles.text) && loadOfField(ia.Index, recv, roles.forward) {
+									for _, r := range *call.Referrers() {
+										if _, isIf := r.(*ssa.If); isIf {
+											runeStart = true
+										}
+										if u2, isU := r.(*ssa.UnOp); isU && u2.Op == token.NOT {
+											runeStart = true
+										}
+									}
+								}
+							}
+						}
+					}
+					switch {
+					case above && runeStart:
+						ok, definite, form = true, false, "forward-- while forward > begin, until utf8.RuneStart(text[forward])"
+					case above:
+						form = "forward moved back by one byte (above begin) without looking for the beginning of the rune: a multi-byte character is retracted in part"
+					}
+				}
 				switch bo.Op {
 				case token.ADD:
 					if sl, isD := decodeSize(f, bo.Y, "unicode/utf8.DecodeRune"); isD {
